@@ -165,6 +165,34 @@ func VerifC11ListOps() {
 	}
 }
 
+// VerifC11SortRunes: the order of Sort is the standard's "comparison of code units": names made of one or
+// two symbolic scalar values (whole code space), so that code points of the upper BMP meet astral ones
+// and invalid bytes (which count as U+FFFD) meet valid ones.
+func VerifC11SortRunes() {
+	_, sp := freshParams()
+	var ml []model.Pair
+	n := 2 + vnd.Pick(vnd.Param("C11.NSortRunes", 1, 2))
+	for i := 0; i < n; i++ {
+		var nm string
+		switch vnd.Pick(3) {
+		case 0:
+			nm = nonASCIIScalar()
+		case 1:
+			nm = nonASCIIScalar() + nonASCIIScalar()
+		default:
+			nm = vnd.Str(1) + nonASCIIScalar()
+		}
+		vl := string(rune('1' + i))
+		sp.Append(nm, vl)
+		ml = model.ListAppend(ml, nm, vl)
+	}
+	sp.Sort()
+	vnd.Cover("sort-runes", true)
+	if !samePairs(implPairs(sp), model.ListSortStable(ml)) {
+		vnd.Fail("Sort does not order names by comparison of UTF-16 code units (stable)")
+	}
+}
+
 // VerifC11SortAbsolute: what the documentation fixes: a permutation, non-decreasing in name+value.
 func VerifC11SortAbsolute() {
 	_, sp := freshParams()
@@ -261,6 +289,7 @@ func VerifC11FormRoundTrip() {
 }
 
 func init() {
+	verifHarnesses["VerifC11SortRunes"] = VerifC11SortRunes
 	verifHarnesses["VerifC11FormParse"] = VerifC11FormParse
 	verifHarnesses["VerifC11ListOps"] = VerifC11ListOps
 	verifHarnesses["VerifC11SortAbsolute"] = VerifC11SortAbsolute
